@@ -1,6 +1,7 @@
 import HdVerif.Model.Json
 import HdVerif.Model.SegGeom
-open Lean HdVerif HdVerif.Drv HdVerif.Gen HdVerif.SegGeom
+import HdVerif.Model.SegFrames
+open Lean HdVerif HdVerif.Drv HdVerif.Gen HdVerif.SegGeom HdVerif.SegFrames
 
 def v3OfList (l : List Rat) : Except String V3 :=
   match l with
@@ -63,7 +64,37 @@ def getStack (j : Json) : Except String Stack := do
 def sortV3 (l : List V3) : List V3 :=
   (l.toArray.qsort (fun a b => a.x < b.x || (a.x == b.x && (a.y < b.y || (a.y == b.y && a.z < b.z))))).toList
 
+/-- `present[si][k]`: segment number `described[si]` has a pixel in plane `k` (a label map is never asked) -/
+def presentOf (described : List Nat) (rows : List (List Bool)) : Option Nat → Nat → Bool
+  | none, _ => true
+  | some s, k =>
+    match described.zip rows |>.find? (fun p => p.1 == s) with
+    | some (_, row) => match row[k]? with
+      | some b => b
+      | none => false
+    | none => false
+
 def handlers : List (String × Handler) := [
+  ("segFrames", fun j => do
+    let iop ← getRatList j "iop"
+    match iop with
+    | [a, b, c, d, e, f] =>
+      let pos ← getV3List j "pos"
+      let described ← getNatList j "described"
+      let rowsJ ← getArr j "present"
+      let rows ← rowsJ.toList.mapM (fun v => do
+        let arr ← v.getArr?
+        arr.toList.mapM (fun x => match x with
+          | .bool t => pure t
+          | _ => throw "bool expected"))
+      let r := segFrames pos ⟨a, b, c⟩ ⟨d, e, f⟩ (← getBoolList j "flags") (← getBool j "omit")
+        (segmentsIterable (← getBool j "labelmap") described) (presentOf described rows)
+      pure (exceptToJson (fun (fs : List Frame) => Json.arr (fs.map (fun fr => Json.mkObj [
+        ("seg", match fr.seg with | some s => (s : Json) | none => Json.null),
+        ("plane", (fr.plane : Json)),
+        ("div", intsToJson fr.indexValues),
+        ("pos", match pos[fr.plane]? with | some p => v3ToJson p | none => Json.null)])).toArray) r)
+    | _ => throw "iop of 6 expected"),
   ("stdSliceIndices", fun j => do
     let r := stdSliceIndices (← getOptInt j "start") (← getOptInt j "end") (← getInt j "n") (← getBool j "as_indices")
     pure (exceptToJson (fun (p : Int × Int) => intsToJson [p.1, p.2]) r)),
